@@ -106,3 +106,85 @@ def ctxInvoke (hs : List PHandler) (headFails : Option PVal) (k : Kind) (i : Nat
       closedWith := if toTail then some val else none, closedByEvent := false }
 
 end NettyVerif.Panic
+
+/-! ### exception handlers that react by using the channel (nested delivery)
+
+An exception handler may answer an exception with `Channel.Write` / `Channel.Trigger`; that call runs
+through `invokeMethod` again, and a panic raised during *its* delivery is a second exception that is
+owed to the exception handlers while the first one is still travelling. One reacting handler, reacting
+once (at nesting depth 0), on a channel that is open when the primary event is delivered. -/
+namespace NettyVerif.Panic
+open NettyVerif.Pipeline
+
+/-- what the handlers see, in order -/
+inductive TEv where
+  | visit (k : Kind) (pos : Nat)
+  | exc (pos : Nat) (v : PVal)
+  deriving DecidableEq, Repr
+
+/-- a plain exception pass (nobody reacts): the chain of exception handlers, each given `v` -/
+def excPlain (hs : List PHandler) (v : PVal) : List TEv × Bool :=
+  let r := fireException hs
+  (r.1.map (fun p => TEv.exc p v), r.2)
+
+/-- the reaction: Channel.Write / Channel.Trigger on the open channel, delivered from the pipeline's
+    end; returns the events and what the channel was closed with by it -/
+def nestedInvoke (hs : List PHandler) (headFails : Option PVal) (k : Kind) : List TEv × Option PVal :=
+  let start := if k = .write then hs.length + 1 else 0
+  let r := deliverP hs headFails k start
+  let evs := r.1.map (fun p => TEv.visit k p)
+  match r.2 with
+  | .fin _ => (evs, none)
+  | .panic _ val =>
+    let x := excPlain hs val
+    (evs ++ x.1, if x.2 || val.isFatalNet then some val else none)
+
+/-- the primary exception pass: the handler at position `r` reacts (events `N`) before it forwards.
+    Returns the events, whether the reaction took place, and whether the exception reached the tail -/
+def excReact (v : PVal) (r : Nat) (N : List TEv) : Nat → List PHandler → List TEv × Bool × Bool
+  | _, [] => ([], false, true)
+  | i, p :: rest =>
+    if p.h.implements .exception then
+      let here := if i = r then N else []
+      if p.h.forwards .exception then
+        let t := excReact v r N (i+1) rest
+        (TEv.exc i v :: here ++ t.1, (i == r) || t.2.1, t.2.2)
+      else (TEv.exc i v :: here, i == r, false)
+    else excReact v r N (i+1) rest
+
+structure ResultR where
+  trace : List TEv
+  closedWith : Option PVal
+  deriving DecidableEq, Repr
+
+/-- Channel.Write / Channel.Trigger / read loop entry (`invokeMethod`) on an open channel whose
+    exception handler at position `r` reacts with an event of kind `rk` -/
+def invokeR (hs : List PHandler) (headFails : Option PVal) (k : Kind) (r : Nat) (rk : Kind) : ResultR :=
+  let start := if k = .write then hs.length + 1 else 0
+  let d := deliverP hs headFails k start
+  let evs := d.1.map (fun p => TEv.visit k p)
+  match d.2 with
+  | .fin _ => { trace := evs, closedWith := none }
+  | .panic _ val =>
+    let n := nestedInvoke hs headFails rk
+    let t := excReact val r n.1 1 hs
+    let own := if t.2.2 || val.isFatalNet then some val else none
+    { trace := evs ++ t.1, closedWith := if t.2.1 && n.2.isSome then n.2 else own }
+
+/-- ctx.Write / ctx.Trigger from position `i` (own recover, no net.Error rule) -/
+def ctxInvokeR (hs : List PHandler) (headFails : Option PVal) (k : Kind) (i : Nat) (r : Nat) (rk : Kind) : ResultR :=
+  let d := deliverP hs headFails k i
+  let evs := d.1.map (fun p => TEv.visit k p)
+  match d.2 with
+  | .fin _ => { trace := evs, closedWith := none }
+  | .panic _ val =>
+    let n := nestedInvoke hs headFails rk
+    let t := excReact val r n.1 1 hs
+    let own := if t.2.2 then some val else none
+    { trace := evs ++ t.1, closedWith := if t.2.1 && n.2.isSome then n.2 else own }
+
+/-- the exception deliveries carrying value `w`, by position -/
+def excOf (w : PVal) (t : List TEv) : List Nat :=
+  t.filterMap (fun e => match e with | .exc p x => if x = w then some p else none | .visit _ _ => none)
+
+end NettyVerif.Panic
